@@ -165,6 +165,22 @@ def r_copyshape(f):
             ok = is_src(lo, 0, 1)
             if srow[0] == "range":
                 ok = ok and is_src(hi, 1, 1)
+                if not ok:
+                    # the same set written with adjusted ends (`a..=last` with last = b - 1, offsets ..): compare as polynomials
+                    from .vgraph import Poly as _Poly
+
+                    def _ps(e):
+                        e = strip(e)
+                        cu = const_usize(e)
+                        if cu is not None:
+                            return _Poly.const(cu)
+                        if e[0] == "bin":
+                            op = e[1].replace("WithOverflow", "").replace("Unchecked", "")
+                            if op in ("Add", "Sub", "Mul"):
+                                x, y = _ps(e[2]), _ps(e[3])
+                                return x + y if op == "Add" else (x - y if op == "Sub" else x * y)
+                        return _Poly.atom(show(e, pn))
+                    ok = _ps(lo) == _ps(("field", ("field", ("param", src), 0), 1)) and _ps(hi) == _ps(("field", ("field", ("param", src), 1), 1))
                 # count form: offsets 0..height that are added to the first source / destination row
                 sh = strip(hi)
                 if not ok and const_usize(strip(lo)) == 0 and sh[0] == "bin" and sh[1].startswith("Sub") and is_src(sh[2], 1, 1) and is_src(sh[3], 0, 1):
@@ -187,7 +203,7 @@ def r_copyshape(f):
             continue
         S, D = src[0], dst[0]
 
-        def P(e):
+        def P(e, depth=0):
             e = strip(e)
             cu = const_usize(e)
             if cu is not None:
@@ -195,8 +211,46 @@ def r_copyshape(f):
             if e[0] == "bin":
                 op = e[1].replace("WithOverflow", "").replace("Unchecked", "")
                 if op in ("Add", "Sub", "Mul"):
-                    a, c = P(e[2]), P(e[3])
+                    a, c = P(e[2], depth), P(e[3], depth)
                     return a + c if op == "Add" else (a - c if op == "Sub" else a * c)
+            # component k of the item of `zip(a0..a1, b0..b1)` (possibly reversed): start_k plus the common position
+            if e[0] == "field" and strip(e[1])[0] == "field" and strip(e[1])[2] == 0 and strip(strip(e[1])[1])[0] == "downcast":
+                src_ = strip(strip(strip(e[1])[1])[1])
+                zs = [x for x in walk(src_) if x[0] == "call" and x[2] == "zip" and len(x[3]) == 2]
+                if zs:
+                    rs_ = [strip(a_) for a_ in zs[0][3]]
+                    if all(r_[0] == "agg" and r_[1].endswith("Range::Range") and len(r_[2]) == 2 for r_ in rs_) and e[2] in (0, 1):
+                        return P(rs_[e[2]][2][0], depth) + Poly.atom("J:" + show(src_, pn))
+            # a crate helper whose result is one expression of its parameters (`fn extent(start, end, ..) -> usize { .. end - start }`)
+            if e[0] == "call" and len(e) > 4 and isinstance(e[4], dict) and depth < 2:
+                hb_ = f.crate_fn_for_call(e[4])
+                if hb_ is not None and hb_.blocks and hb_.kind != "Closure":
+                    hd_ = Dfx(hb_)
+                    rets_ = [strip(hd_.rvalue(st2["rv"])) for _, _, st2 in hb_.stmts() if st2["k"] == "assign" and st2["p"]["local"] == 0 and not st2["p"]["proj"]]
+                    if len(rets_) == 1:
+                        def sub_(x):
+                            x = strip(x) if isinstance(x, tuple) else x
+                            if isinstance(x, tuple) and x[0] == "param" and 1 <= x[1] <= len(e[3]):
+                                return ("__arg__", x[1])
+                            return x
+                        def PH(x):
+                            x = strip(x)
+                            cu2 = const_usize(x)
+                            if cu2 is not None:
+                                return Poly.const(cu2)
+                            if x[0] == "param" and 1 <= x[1] <= len(e[3]):
+                                return P(e[3][x[1] - 1], depth + 1)
+                            if x[0] == "bin":
+                                op2 = x[1].replace("WithOverflow", "").replace("Unchecked", "")
+                                if op2 in ("Add", "Sub", "Mul"):
+                                    a2, c2 = PH(x[2]), PH(x[3])
+                                    if a2 is None or c2 is None:
+                                        return None
+                                    return a2 + c2 if op2 == "Add" else (a2 - c2 if op2 == "Sub" else a2 * c2)
+                            return None
+                        got_ = PH(rets_[0])
+                        if got_ is not None:
+                            return got_
             return Poly.atom(show(e, pn))
         S01, S00, S10, D0, D1 = (P(("field", ("field", ("param", S), 0), 1)), P(("field", ("field", ("param", S), 0), 0)), P(("field", ("field", ("param", S), 1), 0)),
                                  P(("field", ("param", D), 0)), P(("field", ("param", D), 1)))
@@ -222,6 +276,89 @@ def r_copyshape(f):
             R.inst(b.ident, "the row loop headed at the %s() call copies cells in its body" % b.blocks[hb_]["term"]["func"]["fn"]["name"], has)
             if not has:
                 R.fail(b.ident, "loop-without-copy", "%s: a loop over the rectangle's rows contains no slice copy: for that relative placement of source and destination nothing is transferred" % b.ident, b.where(b.blocks[hb_]["term"]["span"]))
+        # overlap: when the rectangle moves down (dest.1 > src.0.1) its rows are copied bottom-up, when it moves up top-down - or
+        # the rows of the two rectangles do not overlap at all.  For every row_pair_mut(s, d): the source row s is `base + item`
+        # or `base - item` of the enclosing counted loop; under the branch facts that dominate where s is computed, an ascending
+        # walk needs src.0.1 >= dest.1 (or dest.1 >= src.1.1), a descending one src.0.1 <= dest.1 (or dest.1 + height <= src.0.1)
+        from .vgraph import Cond, decide, saturate
+        S11 = P(("field", ("field", ("param", S), 1), 1))
+        domc = b.dominators()
+
+        def facts_at(blk):
+            fs = []
+            for sb in domc.get(blk, set()):
+                tt = b.blocks[sb]["term"]
+                if sb == blk or not tt or tt["k"] != "switch":
+                    continue
+                e_ = strip(d.expr(tt["discr"]))
+                tm_ = [(int(a_), b2) for a_, b2 in tt["targets"]]
+                succs = tm_ + [(None, tt["otherwise"])]
+                taken = [(v_, sx) for v_, sx in succs if sx == blk or sx in domc.get(blk, set())]
+                if len(taken) != 1:
+                    continue
+                v_, _ = taken[0]
+                if e_[0] == "discr" and strip(e_[1])[0] == "call" and strip(e_[1])[2] in ("cmp",) and len(strip(e_[1])[3]) == 2:
+                    a_, c_ = [strip(x) for x in strip(e_[1])[3]]
+                    a_ = a_[1] if a_[0] in ("ref", "refmut") else a_
+                    c_ = c_[1] if c_[0] in ("ref", "refmut") else c_
+                    df_ = P(a_) - P(c_)
+                    vals = {255: "<", -1: "<", 0: "==", 1: ">"}
+                    if v_ is not None and v_ in vals:
+                        fs.append(Cond(vals[v_], df_))
+                    elif v_ is None:
+                        others = {vals.get(x) for x, _ in tm_}
+                        rest = {"<", "==", ">"} - others
+                        if len(rest) == 1:
+                            fs.append(Cond(rest.pop(), df_))
+                    continue
+                neg_ = False
+                while e_[0] == "un" and e_[1] == "Not":
+                    neg_ = not neg_; e_ = strip(e_[2])
+                if e_[0] == "bin" and e_[1] in ("Lt", "Le", "Gt", "Ge", "Eq", "Ne"):
+                    c0 = Cond({"Lt": "<", "Le": "<=", "Gt": ">", "Ge": ">=", "Eq": "==", "Ne": "!="}[e_[1]], P(e_[2]) - P(e_[3]))
+                    truth = (v_ is None and any(x == 0 for x, _ in tm_)) or (v_ == 1)
+                    if neg_:
+                        truth = not truth
+                    fs.append(c0 if truth else c0.neg())
+            return fs
+        for bi, t, fn in b.calls():
+            if not (fn and fn["name"] == "row_pair_mut" and len(t["args"]) == 3):
+                continue
+            a1 = t["args"][1]
+            # the definitions of the source-row operand (one, or one per branch of `let r = if flag { .. } else { .. }`)
+            defs_ = []
+            if a1["k"] in ("copy", "move") and not a1["p"]["proj"]:
+                l_ = a1["p"]["local"]
+                for _ in range(3):
+                    ds_ = d.single_def(l_)
+                    if ds_ and ds_[0] == "stmt" and ds_[3]["rv"]["k"] == "use" and ds_[3]["rv"]["o"]["k"] in ("copy", "move") and not ds_[3]["rv"]["o"]["p"]["proj"]:
+                        l_ = ds_[3]["rv"]["o"]["p"]["local"]
+                    else:
+                        break
+                for dd_ in d.whole_defs(l_):
+                    if dd_[0] == "stmt":
+                        defs_.append((dd_[1], strip(d.rvalue(dd_[3]["rv"]))))
+            if not defs_:
+                defs_ = [(bi, strip(d.expr(a1)))]
+            for blk, ex in defs_:
+                px = P(ex)
+                items = [a_ for mono in px.t for a_ in mono if "next(" in a_ or "next_back(" in a_]
+                if len(set(items)) != 1:
+                    continue
+                it_ = items[0]
+                coef = px.t.get((it_,), 0)
+                if coef not in (1, -1) or any(it_ in mono and len(mono) > 1 for mono in px.t):
+                    continue
+                asc = (coef == 1) != ("rev(" in it_ or "next_back(" in it_)
+                fs = facts_at(blk) + [Cond(">=", S11 - S01)]
+                def imp(c_):
+                    return decide(fs, c_) is True or decide(saturate(fs), c_) is True
+                height = S11 - S01
+                okd = (imp(Cond(">=", S01 - D1)) or imp(Cond(">=", D1 - S11))) if asc else (imp(Cond(">=", D1 - S01)) or imp(Cond(">=", S01 - D1 - height)))
+                n += 1
+                R.inst(b.ident, "rows walked %s where the branch facts {%s} make that the safe order for overlapping rectangles" % ("top-down" if asc else "bottom-up", ", ".join(repr(c_) for c_ in fs[:-1])), okd)
+                if not okd:
+                    R.fail(b.ident, "overlap-order:%s" % ("asc" if asc else "desc"), "%s copies the rectangle's rows %s on a path whose branch facts {%s} do not exclude a move %s with overlapping rows: a source row is read after it was overwritten" % (b.ident, "top-down" if asc else "bottom-up", ", ".join(repr(c_) for c_ in fs[:-1]), "downwards" if asc else "upwards"), b.where(t["span"]))
         # same-row case: slice::copy_within(src.0.0..src.1.0, dest.0) on the row
         for bi, t, fn in b.calls():
             if fn and fn["path"] == "core::slice::<impl [T]>::copy_within" and len(t["args"]) == 3:
